@@ -321,7 +321,9 @@ func c07State(rep *report.Report, w *c07World, ops []explore.Op, bodies [][]int,
 		// pre-commit actions: a failing one alone, before, after and between succeeding ones
 		faults = append(faults, c07Fault{kind: "none"}, c07Fault{kind: "precommit", pre: "F"}, c07Fault{kind: "precommit", pre: "FS"}, c07Fault{kind: "precommit", pre: "SF"}, c07Fault{kind: "precommit", pre: "SFS"},
 			// Q = a succeeding action that itself registers another succeeding action; f = a failing action that first registers a succeeding one
-			c07Fault{kind: "precommit", pre: "QF"}, c07Fault{kind: "precommit", pre: "f"}, c07Fault{kind: "precommit", pre: "fS"})
+			c07Fault{kind: "precommit", pre: "QF"}, c07Fault{kind: "precommit", pre: "f"}, c07Fault{kind: "precommit", pre: "fS"},
+			// o... = registered on the mutate context before Db.Update / Db.Batch is called
+			c07Fault{kind: "precommit", pre: "oF"}, c07Fault{kind: "precommit", pre: "oSF"})
 		for j := 0; j <= len(body); j++ {
 			faults = append(faults, c07Fault{kind: "caller", callerAt: j})
 		}
@@ -350,8 +352,10 @@ func c07State(rep *report.Report, w *c07World, ops []explore.Op, bodies [][]int,
 			}
 		}
 		// Batch waits 10 ms per call: one body in 40, without fault, with caller error, with veto
-		if bi%40 == 0 {
-			for _, f := range []c07Fault{{kind: "none"}, {kind: "caller", callerAt: len(body)}, {kind: "precommit", pre: "F"}, {kind: "precommit", pre: "FS"}} {
+		// ... and every body made of one delete (a refused delete is re-run by bbolt's batch machinery on its own)
+		oneDelete := len(body) == 1 && strings.HasPrefix(ops[body[0]].Name, "delete")
+		if bi%40 == 0 || oneDelete {
+			for _, f := range []c07Fault{{kind: "none"}, {kind: "caller", callerAt: len(body)}, {kind: "precommit", pre: "F"}, {kind: "precommit", pre: "FS"}, {kind: "precommit", pre: "oF"}} {
 				c07Run(rep, w, h, ops, body, st, m, reject, f, "Batch", pre, preHash)
 			}
 		}
@@ -380,7 +384,7 @@ func c07Run(rep *report.Report, w *c07World, h *c07Db, ops []explore.Op, body []
 		vfault.Attach(ctx.Tx(), plan)
 		defer vfault.Detach(ctx.Tx())
 		ctx.AddCommitAction(func() { atomic.AddInt64(&w.commitActs, 1) })
-		if f.kind == "precommit" {
+		if f.kind == "precommit" && !strings.HasPrefix(f.pre, "o") {
 			for _, a := range f.pre {
 				switch a {
 				case 'F':
@@ -424,6 +428,16 @@ func c07Run(rep *report.Report, w *c07World, h *c07Db, ops []explore.Op, body []
 	var err error
 	db := h.db
 	ctx := boltz.NewMutateContext(context.Background())
+	if f.kind == "precommit" && strings.HasPrefix(f.pre, "o") {
+		// registered on the context BEFORE the transaction is started (Db.Batch may run the function twice)
+		for _, a := range f.pre[1:] {
+			if a == 'F' {
+				ctx.AddPreCommitAction(func(boltz.MutateContext) error { return errBoom })
+			} else {
+				ctx.AddPreCommitAction(func(boltz.MutateContext) error { return nil })
+			}
+		}
+	}
 	var panicked interface{}
 	func() {
 		defer func() { panicked = recover() }()
